@@ -18,7 +18,7 @@ theorem tw_dw_stop (p : Char → Bool) (a b : Bytes) (ha : ∀ c ∈ a, p c = tr
   · simp
   · simp [hc]
 
-theorem mem_takeWhile_pos {p : Char → Bool} {l : Bytes} {c : Char}
+theorem mem_takeWhile_pos_split {p : Char → Bool} {l : Bytes} {c : Char}
     (h : c ∈ l.takeWhile p) : p c = true := by
   induction l with
   | nil => simp at h
@@ -96,7 +96,7 @@ theorem padTokenAt_token (pad ext : Bytes) (t : PadTok) (h : classifyPad pad = s
         conv => lhs; rw [← List.takeWhile_append_dropWhile (p := isDigit) (l := r)]
         rw [hd]
       have hall : ∀ c ∈ r.takeWhile isDigit, isDigit c = true := fun c hc =>
-        mem_takeWhile_pos hc
+        mem_takeWhile_pos_split hc
       have hstop : ('d' :: ext) = [] ∨ ∃ c r', ('d' :: ext) = c :: r' ∧ isDigit c = false :=
         Or.inr ⟨'d', ext, rfl, by decide⟩
       obtain ⟨h1, h2⟩ := tw_dw_stop isDigit (r.takeWhile isDigit) ('d' :: ext) hall hstop
@@ -188,7 +188,7 @@ theorem classifyPad_no_nl (pad : Bytes) (t : PadTok) (h : classifyPad pad = some
       · exact absurd h' (by decide)
       · rw [hr] at h'
         rcases List.mem_append.mp h' with h'' | h''
-        · exact isDigit_ne_nl (mem_takeWhile_pos h'') rfl
+        · exact isDigit_ne_nl (mem_takeWhile_pos_split h'') rfl
         · simp at h''
     · simp at h
   · rename_i r _ _
